@@ -533,7 +533,7 @@ class Run:
                 if f.endswith(".case"):
                     all_cmds.extend([l for l in open(os.path.join(corpus_dir, f)).read().split("\n") if l and not l.startswith("#")])
                     corpus_cases += 1
-        shards = cfg.get("shards", {"quick": 1, "thorough": 16})[self.tier]
+        shards = cfg.get("shards", {"quick": 4, "thorough": 16})[self.tier]
         seeds = [self.seed * 1000 + i for i in range(shards)]
 
         def one(seed):
